@@ -743,8 +743,12 @@ def op_rename_metabolite(E, m, S):
 
 def op_build_from_string(E, m, S):
     r = _rxn(E, m, pool=("R1",))
-    s = E.pick(S.tag("string"), ["A + 2 B --> C", "A <=> ", "[c]: A --> B", "A B"])
-    _try(S, "build_reaction_from_string", lambda: r.build_reaction_from_string(s, verbose=False), r=r.id, s=s)
+    # "A + x 2 B --> C": valid arrow, malformed coefficient in a later term - raises after the old stoichiometry was cleared
+    # and the first term added (a multi-step call whose state after the failure the documentation leaves open; inside a
+    # context everything done so far must still be undone)
+    s = E.pick(S.tag("string"), ["A + 2 B --> C", "A <=> ", "[c]: A --> B", "A B", "A + x 2 B --> C"])
+    _try(S, "build_reaction_from_string", lambda: r.build_reaction_from_string(s, verbose=False), r=r.id, s=s,
+         atomic=(s != "A + x 2 B --> C"))
 
 
 def op_groups(E, m, S):
